@@ -62,6 +62,8 @@ def run_case(case):
     devices = None if case["devices_none"] else [jax.devices()[0]] * ndev
     rk = None if case["key"] is None else random.PRNGKey(case["key"])
     arg = mis[0] if case["bare"] else tuple(mis)
+    # call history: the other mode is called first with the same (L, B) (anything memoised per data-set size shows here)
+    ml.get_batches(arg, B, random.PRNGKey(17) if rk is None else None, devices)
     batches = ml.get_batches(arg, B, rk, devices)
     nb = L // B
     if len(batches) != len(mis):
